@@ -539,6 +539,13 @@ def join_loop_over_handles(b):
             t = b.blocks[i]['term']
             if t['k'] == 'call' and t['func'].get('fn') and mir.callee_name(t['func']['fn']).endswith('JoinHandle::<T>::join'):
                 return True
+    # ... or a `for_each` / `map(..).collect()` over the handles whose closure joins
+    for bb, t, fn in b.calls():
+        if fn and mir.callee_name(fn).split('::')[-1] in ('for_each', 'map', 'try_for_each'):
+            for b2 in b.crate.bodies:
+                if b2.defkind == 'Closure' and b2.path.startswith(b.path + '::{closure') and any(
+                        f2 and mir.callee_name(f2).endswith('JoinHandle::<T>::join') for _, _, f2 in b2.calls()):
+                    return True
     return False
 
 
